@@ -5,7 +5,7 @@ declarations, to the expanded names the handler passed in.
 import XsdataModel.Proofs.Flush
 
 namespace Proofs.Resolve
-open Py Xs.Ns Xs.Sax Xs.Writer Spec.XmlNs Proofs.MapInv Proofs.Flush
+open Py Xs.Ns Xs.Sax Xs.Writer Spec.XmlNs Proofs.MapInv Proofs.Flush Spec.Hyps
 
 theorem uriOK_ne_nil (u : Str) (h : uriOK u = true) : u ≠ [] := by
   simp only [uriOK, Bool.and_eq_true, Bool.not_eq_true'] at h
@@ -88,15 +88,7 @@ theorem resolve_unqualified_elem (env : NsEnv) (S : List (Pfx × Str)) (g : GSta
 end Proofs.Resolve
 
 namespace Proofs.Resolve
-open Py Xs.Ns Xs.Sax Xs.Writer Spec.XmlNs Proofs.MapInv Proofs.Flush
-
-/-- an attribute name the writer can write correctly: local part an NCName
-(not the bare `xmlns`), namespace declarable and different from the user's
-default namespace -/
-def attrNameOK (d : Option Str) (n : EName) : Bool :=
-  isNCName n.2 && (match n.1 with
-    | none => n.2 != xmlnsPrefix
-    | some u => uriOK u && some u != d)
+open Py Xs.Ns Xs.Sax Xs.Writer Spec.XmlNs Proofs.MapInv Proofs.Flush Spec.Hyps
 
 theorem resolve_attr (env : NsEnv) (henv : EnvOK env) (d : Option Str) (Mf : NsMap)
     (S : List (Pfx × Str)) (g : GState)
